@@ -526,7 +526,8 @@ class Tree:
         child nodes and return list of results."""
         res = []
         with self:
-            for n in self._root._children:  # pyright: ignore[reportOptionalIterable]
+            # Note: `_root._children` is None after all nodes were removed
+            for n in self._root.children:
                 res.append(n.to_dict(mapper=mapper))
         return res
 
